@@ -95,14 +95,18 @@ def mutate_queries():
 
         def pre(wd, repo, hdr=hdr):
             open(os.path.join(wd, "c13_script.h"), "w").write(hdr)
-        for pos in [-1] + list(range(n)):
+        # positions: only the unmutated skeleton (-1).  Single-mutation queries at a concrete position (mutation kind
+        # symbolic) were tried for all positions: none finished within 15 minutes (board p005, train p010, track p040 and even
+        # the unmutated 170-event track skeleton), so they are not scheduled; tools/prof.py can still run one with
+        # VERIF_C13_MUTATE_ALL=1.  Structure deviations are covered per parser by the shape sweep instead.
+        for pos in ([-1] + list(range(n)) if os.environ.get("VERIF_C13_MUTATE_ALL") else [-1]):
             quick = pos < 0 or kind != "track" or pos % 2 == 0
             qs.append(Q("mutate-%s-%s" % (kind, "none" if pos < 0 else "p%03d" % pos), "C13_mutate.c", MUT_SRCS, env=ENV,
                         defs={"VERIF_YAML_SCRIPTED": None, "VERIF_YAML_MUT": pos, "VERIF_YAML_LEN": n, "VERIF_GARRAY_CAP": 12,
                               "VERIF_GARRAY_REPLACE": None, "VERIF_GARRAY_SPLIT": 12,
                               "VERIF_YAML_WORDMAX": wmax},
                         unwind=7, unwind_fn={"bidib_config_parse_.*": n + 3, "harness": 14}, pre=pre, leak=True,
-                        tier="thorough", required=False, timeout=1750,
+                        tier="thorough", required=False, timeout=1200,
                         unwindset=["%s:%d" % (l, wmax + 2) for l in ("strcmp.0", "g_string_new.0", "strdup.0", "v_dup.0", "v_dup.1",
                                                                       "strtol.1")] +
                                   ["strlen.0:28", "strtol.0:3", "bidib_string_to_uid.0:9", "verif_yaml_word.0:40", "verif_yaml_word.1:40"]))
@@ -192,6 +196,6 @@ def queries():
                         unwindset=["%s:%d" % (l, max(len(w) for w in DICTS[n] + ["cfg/"]) + 2) for l in
                                    ("strcmp.0", "strlen.0", "g_string_new.0", "strdup.0", "verif_yaml_word.0", "strtol.1")] +
                                   ["strtol.0:3", "bidib_string_to_uid.0:9", "verif_yaml_word.1:%d" % (len(DICTS[n]) + 2)],
-                        leak=(n not in LIGHT and tier != "quick"), tier=tier, timeout=None if tier == "quick" else 1750, required=(tier == "quick"),
+                        leak=(n not in LIGHT and tier != "quick"), tier=tier, timeout=None if tier == "quick" else 900, required=(tier == "quick"),
                         note="arbitrary well-nested event sequences" + ("" if tier == "quick" else " (stretch)")))
     return qs
